@@ -113,6 +113,21 @@ impl FixedWindowRoller {
     }
 }
 
+#[cfg(all(log4rs_verif, not(feature = "background_rotation")))]
+#[doc(hidden)]
+impl FixedWindowRoller {
+    /// A roller without compression, constructed directly (what `build` returns for a
+    /// pattern that contains `{}` and has no compression extension).
+    pub fn verif_new(pattern: &str, base: u32, count: u32) -> FixedWindowRoller {
+        FixedWindowRoller {
+            pattern: pattern.to_owned(),
+            compression: Compression::None,
+            base,
+            count,
+        }
+    }
+}
+
 impl Roll for FixedWindowRoller {
     #[cfg(not(feature = "background_rotation"))]
     fn roll(&self, file: &Path) -> anyhow::Result<()> {
